@@ -172,8 +172,9 @@ func tryRecursiveValidate(val reflect.Value, opts *options, validators []validat
 		return err
 	}
 	// Validate is looked up on the value and on a pointer to it, so follow
-	// all pointers first (**T implements nothing)
-	return tryValidate(chaseValuePointers(val))
+	// all pointers first (**T implements nothing), and the values held by
+	// interfaces (interface{} implements nothing either)
+	return tryValidate(chaseValue(val))
 }
 
 func validateStruct(val reflect.Value, opts *options) error {
